@@ -49,6 +49,8 @@ def apply(m, sources):
             out = m.old(dict(src))
         except Exception:
             return None
+        if out is None or out == src:
+            return None
         return out
     for mod, old, new, cnt in [(m.module, m.old, m.new, m.count)] + [(a[0], a[1], a[2], a[3] if len(a) > 3 else 1) for a in m.also]:
         if mod not in src or src[mod].count(old) != cnt:
@@ -152,3 +154,77 @@ def main(argv=None):
 
 if __name__ == "__main__":
     sys.exit(main())
+
+
+# ---------------------------------------------------------------------------
+# archived seeded changes as B-mutants (unified diffs applied in memory)
+# ---------------------------------------------------------------------------
+
+def apply_unified_diff(sources, diff_text):
+    """Apply a `git diff` of sketchnu/*.py to the in-memory sources; returns new sources or None if a hunk does not fit."""
+    import re
+    out = dict(sources)
+    files = re.split(r"^diff --git ", diff_text, flags=re.M)[1:]
+    for f in files:
+        m = re.search(r"^\+\+\+ b/sketchnu/(\w+)\.py$", f, flags=re.M)
+        if not m:
+            continue
+        mod = m.group(1)
+        if mod not in out:
+            return None
+        lines = out[mod].split("\n")
+        hunks = re.split(r"^@@ ", f, flags=re.M)[1:]
+        offset = 0
+        for h in hunks:
+            hm = re.match(r"-(\d+)(?:,(\d+))? \+(\d+)(?:,(\d+))? @@.*\n", h)
+            if not hm:
+                return None
+            start = int(hm.group(1))
+            body = h[hm.end():].split("\n")
+            old, new = [], []
+            for ln in body:
+                if ln.startswith("\\"):
+                    continue
+                if ln.startswith("-"):
+                    old.append(ln[1:])
+                elif ln.startswith("+"):
+                    new.append(ln[1:])
+                elif ln.startswith(" ") or ln == "":
+                    if ln == "" and ln is body[-1]:
+                        continue
+                    old.append(ln[1:])
+                    new.append(ln[1:])
+            # locate: expected position first, then a search nearby (the tree may have drifted since the patch was made)
+            pos = start - 1 + offset
+            def fits(p):
+                return 0 <= p and lines[p:p + len(old)] == old
+            if not fits(pos):
+                cand = [p for p in range(max(0, pos - 400), min(len(lines), pos + 400)) if fits(p)]
+                if not cand:
+                    return None
+                pos = min(cand, key=lambda p: abs(p - pos))
+            lines[pos:pos + len(old)] = new
+            offset += len(new) - len(old)
+        out[mod] = "\n".join(lines)
+    return out
+
+
+def seeded_mutants():
+    """M objects for every archived seeded change (kind B for the property it targets)."""
+    import json
+    here = os.path.dirname(os.path.dirname(os.path.abspath(__file__)))
+    d = os.path.join(here, "seeded")
+    out = []
+    if not os.path.isdir(d):
+        return out
+    for name in sorted(os.listdir(d)):
+        pp, mp = os.path.join(d, name, "patch.diff"), os.path.join(d, name, "meta.json")
+        if not (os.path.exists(pp) and os.path.exists(mp)):
+            continue
+        with open(pp) as f:
+            diff = f.read()
+        with open(mp) as f:
+            meta = json.load(f)
+        out.append(M("seeded:" + name, [meta["breaks_property"]], "*", (lambda src, _d=diff: apply_unified_diff(src, _d)), None, kind="B",
+                     note="independently seeded change archived under /verif/seeded/%s" % name))
+    return out
